@@ -10,7 +10,7 @@ import (
 
 // ---- tables of the fragment both matching engines support: literal and plain
 // variable segments, literal root paths (nested), no conditions ----
-var simpleLits = []string{"a", "b", "x", "ab"}
+var simpleLits = []string{"a", "b", "x", "ab", "é", "a,b"}
 
 func genSimpleTable(r *Rng, router int) (TableSpec, []genRoute) {
 	t := TableSpec{Router: router}
@@ -154,6 +154,9 @@ func genSimpleRequest(r *Rng, routes []genRoute) *Req {
 			segs = append(segs, r.Pick(simpleLits))
 		}
 		q.Path = "/" + strings.Join(segs, "/")
+	}
+	if n := strings.Count(q.Path, "/"); n >= 2 && r.Pct(5) {
+		q.EncSlash = 1 + r.Intn(n-1) // one separator arrives as %2F: URL.Path is unchanged, URL.RawPath differs
 	}
 	if r.Pct(25) {
 		q.Set("Content-Type", r.Pick([]string{"application/json", "text/plain"}))
